@@ -39,7 +39,9 @@ func (tr *FnTr) ghostKind(id *Term) *Term {
 
 func (tr *FnTr) ghostNew(id *Term, alg *Term) {
 	if k := tr.ghostKind(id); k.Key() != alg.Key() {
-		tr.vc.Assume(Eq(k, alg))
+		// guarded by reachability: alternative branches allocate their objects at the same
+		// id (the allocation counter at the branch point), possibly with different kinds
+		tr.vc.Assume(Implies(tr.st.Reach, Eq(k, alg)))
 	}
 	tr.st.Ghost = tr.vc.Def("ghost", Store(tr.st.Ghost, id, Store(Store(zeroArr, Int(-1), Int(0)), Int(-2), alg)))
 }
